@@ -153,8 +153,8 @@ def decompose_mol(S, m):
     clash = False
     for k, v in remap(dsc).items():
         if k in tot:
-            clash = True     # a descriptor named like a group: statement silent
-        tot[k] = v
+            clash = True     # a descriptor named like a group: the counts add
+        tot[k] = tot.get(k, 0) + v
     return tot, per_atom, clash
 
 
